@@ -24,6 +24,7 @@ import (
 	"github.com/AdguardTeam/AdGuardDNS/internal/profiledb"
 	"github.com/AdguardTeam/AdGuardDNS/verif/kernel"
 	"github.com/AdguardTeam/AdGuardDNS/verif/simnet"
+	"github.com/AdguardTeam/AdGuardDNS/verif/verifsim"
 	"github.com/AdguardTeam/AdGuardDNS/verif/world"
 	"github.com/miekg/dns"
 )
@@ -363,6 +364,10 @@ func runC07(s *kernel.Sim, cfg string) {
 	}
 
 	// ---- the concurrent run ----
+	// At the yields inserted into the ECS cache a stream lets every other
+	// stream that can run go first (one nanosecond of simulated sleep).
+	verifsim.Install(&verifsim.Hooks{Yield: func(string) { time.Sleep(time.Nanosecond) }})
+	defer verifsim.Install(nil)
 	if cfg == "servers" {
 		c07ThroughServers(s, w, srv, streams)
 	}
